@@ -21,6 +21,14 @@ def job(chk, item):
                 su = fam.build_file(b, pos, expr)
                 names = {v.decl().name() for v in b.loc_vars}
                 results.append(fam.run_case(chk, e, detector, su, '%s @ %s' % (label, pos), names))
+            # the identifier the detector looks for as a symbolic string: decided for every spelling
+            if pos in ('statement', 'for_condition', 'catch_body', 'modifier_argument'):
+                for k in range(len(fam.symbolic_name_forms(detector, sol.TreeBuilder()))):
+                    b = sol.TreeBuilder()
+                    label, expr, cons = fam.symbolic_name_forms(detector, b)[k]
+                    su = fam.build_file(b, pos, expr)
+                    names = {v.decl().name() for v in b.loc_vars}
+                    results.append(fam.run_case(chk, e, detector, su, '%s @ %s' % (label, pos), names, base=cons))
     else:
         # two occurrences in one file: same function / two contracts (no occurrence may hide or fake another)
         for (i, j, where) in positions:
